@@ -260,6 +260,17 @@ def language(pattern, mode="match", lf_free=False):
         pattern = re.compile(pattern)
     flags = pattern.flags
     items = list(sp.parse(pattern.pattern, flags))
+    try:
+        return _language_items(items, flags, mode, lf_free)
+    except Unsupported:
+        # `^A|B|C$` - a top-level alternation whose alternatives carry different anchors: each
+        # alternative is an independent pattern as far as *whether* the subject matches is concerned
+        if len(items) == 1 and items[0][0] is sc.BRANCH:
+            return union(_language_items(list(sub), flags, mode, lf_free) for sub in items[0][1][1])
+        raise
+
+
+def _language_items(items, flags, mode, lf_free):
     items, b = _strip(items, "begin")
     items, e = _strip(items, "end")
     body = Conv(flags).seq(items)
